@@ -330,6 +330,7 @@ namespace bloch::runtime {
         RuntimeField* findInstanceField(RuntimeClass* cls, const std::string& name);
         RuntimeField* findStaticField(RuntimeClass* cls, const std::string& name);
         void initStaticFields(RuntimeClass* cls);
+        Value staticSlot(RuntimeClass* owner, RuntimeField* field);
         void ensureGcThread();
         void requestGc();
         void rethrowDestructorError();
